@@ -101,6 +101,29 @@ def reuse_case(jp, rec, R, text, q, doc):
         return None
     c = o[1]
     steps = []
+    # an evaluation suspended while the same compiled query is applied to another document ('$' must stay bound)
+    other = D.doc_for(R, q, maxdepth=3, maxwidth=4)
+    want0 = mon.want_sig(SD.MODEL.find(q, doc))
+
+    def suspended():
+        it = iter(c.finditer(doc))
+        out = []
+        for _ in range(R.randint(0, 2)):
+            n = next(it, None)
+            if n is None:
+                return out
+            out.append(n)
+        try:
+            c.find(other)
+        except Exception:  # noqa: BLE001
+            pass
+        return out + list(it)
+    r0 = mon.observe(suspended)
+    rec.monitor("M-find")
+    if r0[0] != "ok" or mon.sig(r0[1]) != want0:
+        return ("suspended-evaluation-differs", {"query": text, "document": jsonable(doc), "other_document_applied_in_between": jsonable(other),
+                                                 "expected_locations": mon.locs_only(want0),
+                                                 "observed": mon.locs_only(mon.sig(r0[1])) if r0[0] == "ok" else mon.describe_outcome(r0)})
     for step in range(3):
         r = mon.observe(lambda: list(c.finditer(doc)))
         rec.monitor("M-find")
